@@ -110,7 +110,7 @@ def main():
             suite = []
             for pkg in ["./actor/", "./cluster/", "./remote/", "./ringbuffer/", "./safemap/"]:
                 runs = []
-                for k in range(4):
+                for k in range(int(os.environ.get("SEEDCHECK_RETRIES", "4"))):
                     rc, o, dt = sh(ns("go test -mod=mod -vet=off -count=1 -timeout 10m " + pkg), wt, 900)
                     fails = sorted(set(l.split()[2] for l in o.splitlines() if l.startswith("--- FAIL")))
                     runs.append({"rc": rc, "s": round(dt, 1), "failed": fails})
